@@ -63,6 +63,28 @@ def main(argv):
             except fuzz.Failure:
                 pass
 
+    # corpus distillation (rounds after the first, see vf/fuzz.py): keep the units the target wants to go on from
+    keep = getattr(mod, attr + "_keep", None)
+    corpus_dir = next((a for a in lf_args if not a.startswith("-")), None)
+    if os.environ.get("VERIF_FUZZ_DISTILL") == "1" and keep is not None and corpus_dir:
+        kept = dropped = 0
+        for name in sorted(os.listdir(corpus_dir)):
+            path = os.path.join(corpus_dir, name)
+            try:
+                with open(path, "rb") as f:
+                    data = f.read()
+                label = fn(data)
+            except fuzz.Failure:
+                label = "FAILURE"
+            except Exception:
+                label = None
+            if label is not None and (label == "FAILURE" or keep(str(label))):
+                kept += 1
+            else:
+                os.remove(path)
+                dropped += 1
+        state["distilled"] = {"kept": kept, "dropped": dropped}
+
     hist = state["hist"]
     failures = state["failures"]
     last = 1 << 62  # libFuzzer stops after -runs=N executions: write the statistics on each of the last few
